@@ -8,7 +8,9 @@ package c17
 // Both feed checkCase (oracle_test.go).
 
 import (
+	"encoding/json"
 	"fmt"
+	"os"
 	"sort"
 	"strings"
 	"sync"
@@ -32,6 +34,10 @@ func timed(c Case) (*core.Violation, obs) {
 	t0 := time.Now()
 	v, o := checkCase(c)
 	d := time.Since(t0)
+	if dir := os.Getenv("C17_SLOWDIR"); dir != "" && d > 300*time.Millisecond {
+		b, _ := json.Marshal(c)
+		os.WriteFile(fmt.Sprintf("%s/slow-%d-%s.json", dir, d.Milliseconds(), c.Entry), b, 0o644)
+	}
 	tmMu.Lock()
 	tmTotal += d
 	tmCases++
